@@ -324,6 +324,8 @@ def _eliminate_returns(block, ost, at_end=True):
     def rep(ret):
         v = ret.value
         if isinstance(ost, ast.Assign):
+            if isinstance(v, ast.Name) and len(ost.targets) == 1 and isinstance(ost.targets[0], ast.Name) and ost.targets[0].id == v.id:
+                return []       # `value = helper(value)` with `return value` in the helper: nothing to re-bind
             a = ast.Assign(targets=_clone_ast(ost.targets), value=v if v is not None else ast.Constant(value=None), type_comment=None)
             return [ast.fix_missing_locations(ast.copy_location(a, ret))]
         if v is None or isinstance(v, (ast.Constant, ast.Name)):
